@@ -154,6 +154,10 @@ func (g UndirectWeighted) WeightedEdgeBetween(xid, yid int64) WeightedEdge {
 // edge between the two nodes the weight value returned is zero. Weight returns true if an edge
 // exists between x and y or if x and y have the same ID, false otherwise.
 func (g UndirectWeighted) Weight(xid, yid int64) (w float64, ok bool) {
+	if xid == yid {
+		return g.G.Weight(xid, yid)
+	}
+
 	fe := g.G.Edge(xid, yid)
 	re := g.G.Edge(yid, xid)
 
@@ -166,6 +170,9 @@ func (g UndirectWeighted) Weight(xid, yid int64) (w float64, ok bool) {
 		r = g.Absent
 	}
 	ok = fOk || rOK
+	if !ok {
+		return 0, false
+	}
 
 	if g.Merge == nil {
 		return (f + r) / 2, ok
